@@ -82,6 +82,53 @@ pub fn cpu_time() -> f64 {
     ts.tv_sec as f64 + ts.tv_nsec as f64 * 1e-9
 }
 
+static CURRENT_IDX: std::sync::atomic::AtomicU64 = std::sync::atomic::AtomicU64::new(0);
+static CASE_START_CPU_MS: std::sync::atomic::AtomicU64 = std::sync::atomic::AtomicU64::new(u64::MAX);
+static CPU_BUDGET_MS: std::sync::atomic::AtomicU64 = std::sync::atomic::AtomicU64::new(0);
+static WATCHDOG_STARTED: std::sync::atomic::AtomicBool = std::sync::atomic::AtomicBool::new(false);
+
+/// CPU-time budget per case (process CPU seconds). When a case exceeds it the watchdog reports
+/// the case as a violation `cpu-budget-exceeded` itself and ends the process: the verdict rests
+/// on CPU time consumed by the code under test, never on wall-clock time.
+pub fn set_cpu_budget(secs: f64) {
+    use std::sync::atomic::Ordering;
+    CPU_BUDGET_MS.store((secs * 1000.0) as u64, Ordering::SeqCst);
+    if !WATCHDOG_STARTED.swap(true, Ordering::SeqCst) {
+        std::thread::spawn(|| loop {
+            std::thread::sleep(std::time::Duration::from_millis(250));
+            let start = CASE_START_CPU_MS.load(Ordering::SeqCst);
+            let budget = CPU_BUDGET_MS.load(Ordering::SeqCst);
+            if start == u64::MAX || budget == 0 {
+                continue;
+            }
+            let now = (cpu_time() * 1000.0) as u64;
+            if now.saturating_sub(start) > budget {
+                let idx = CURRENT_IDX.load(Ordering::SeqCst);
+                let mut r = CaseResult::violation(
+                    idx,
+                    format!("the case consumed more than {} s of CPU time without returning", budget / 1000),
+                    merge_key(json!({"kind": "cpu-budget-exceeded"}), &Value::Null),
+                );
+                r.stat("cpu_budget_exceeded", 1);
+                let mut j = r.to_json();
+                j["exit"] = json!(true);
+                emit("E", idx, &j);
+                unsafe { libc::_exit(0) };
+            }
+        });
+    }
+}
+
+pub fn case_started(idx: u64) {
+    use std::sync::atomic::Ordering;
+    CURRENT_IDX.store(idx, Ordering::SeqCst);
+    CASE_START_CPU_MS.store((cpu_time() * 1000.0) as u64, Ordering::SeqCst);
+}
+
+pub fn case_finished() {
+    CASE_START_CPU_MS.store(u64::MAX, std::sync::atomic::Ordering::SeqCst);
+}
+
 pub fn worker_main(prop: &dyn Prop, ctx: WorkerCtx, shard: u64, nshards: u64, from: u64, cases: u64) {
     install_panic_hook();
     let seed = ctx.seed;
@@ -104,7 +151,9 @@ pub fn worker_main(prop: &dyn Prop, ctx: WorkerCtx, shard: u64, nshards: u64, fr
         emit("B", idx, &case);
         clear_key();
         let _ = take_panic();
+        case_started(idx);
         let res = catch_unwind(AssertUnwindSafe(|| w.run(&case)));
+        case_finished();
         match res {
             Ok(r) => emit("E", idx, &r.to_json()),
             Err(_) => {
